@@ -76,7 +76,7 @@ PROPS = {
         real_vs_stub=REAL + " file layer: fopen/fopen64/read of files under the run directory are interposed (faults); the files themselves are real.",
         assumptions=COMMON_ASSUME + ["hard I/O errors (EIO, ENOSPC) are not injected: the property says nothing about them",
                                      "a used file counts as used from the start of its evaluation and stops counting if that evaluation fails (mirrors the engine after the fix)"],
-        expected_probes=["fault_short_read", "fault_eintr", "fault_open_fail", "probe_file_shorter_than_bom", "probe_file_not_found"],
+        expected_probes=["fault_short_read", "fault_eintr", "fault_open_fail", "probe_file_shorter_than_bom", "probe_file_not_found", "probe_lookup_by_absolute_name"],
         **two(30, 300,
               {"plain": {"workers": 8, "fixed": True}, "asan": {"workers": 8, "fixed": True}},
               {"plain": {"workers": 8, "fixed": True}, "asan": {"workers": 8, "fixed": True}}),
